@@ -165,3 +165,64 @@ func splitTokens(s string) []string {
 	}
 	return out
 }
+
+// layoutSkeletons are token skeletons whose inter-token slots take trivia values (G-layout).
+var layoutSkeletons = [][]string{
+	// file header, option with a message literal without separators, compact options with an extension name
+	{"syntax", "=", "\"proto2\"", ";", "package", "a", ".", "b", ";", "import", "public", "\"x.proto\"", ";",
+		"option", "(", "o", ")", "=", "{", "a", ":", "1", "b", ":", "\"s\"", "c", "{", "d", ":", "2", "}", "e", ":", "[", "1", ",", "2", "]", "}", ";"},
+	// message with fields, compact options, nested message, oneof, map, reserved, extensions
+	{"message", "M", "{", "optional", "int32", "a", "=", "1", "[", "deprecated", "=", "true", ",", "(", "x", ".", "y", ")", "=", "2", "]", ";",
+		"oneof", "o", "{", "string", "s", "=", "2", ";", "}", "map", "<", "int32", ",", "string", ">", "m", "=", "3", ";",
+		"reserved", "5", "to", "7", ",", "9", ";", "extensions", "100", "to", "max", ";", "message", "N", "{", "}", "}"},
+	// enum, service with rpc signature and body, extend
+	{"enum", "E", "{", "option", "allow_alias", "=", "true", ";", "A", "=", "0", ";", "B", "=", "0", "[", "deprecated", "=", "true", "]", ";", "}",
+		"service", "S", "{", "rpc", "R", "(", "stream", "M", ")", "returns", "(", ".", "a", ".", "M", ")", "{", "option", "deprecated", "=", "true", ";", "}", "rpc", "Q", "(", "M", ")", "returns", "(", "M", ")", ";", "}",
+		"extend", "M", "{", "optional", "string", "x", "=", "100", ";", "}"},
+}
+
+var layoutTrivia = []string{"", "\n", "\n\n", "\t", "\r\n", "// c\n", "/* c */", " /* c\n c */ ", " /* c */\n", " // c\n\n", "\n// c\n// d\n", "\n// c\n", "\n\n// c\n\n", "  "}
+
+// forEachLayout enumerates every text obtained from skel by putting a non-default trivia value
+// into at most maxDev slots (a slot precedes every token and one follows the last; the default
+// is one space, and a newline at the end). With window > 0 the second and third deviating slots
+// lie within that many slots of the previous one (or at the very end).
+func forEachLayout(skel []string, trivia []string, maxDev, window int, f func(s string)) {
+	n := len(skel)
+	build := func(slots map[int]string) string {
+		var b strings.Builder
+		for i, t := range skel {
+			if v, ok := slots[i]; ok {
+				b.WriteString(v)
+			} else if i > 0 {
+				b.WriteString(" ")
+			}
+			b.WriteString(t)
+		}
+		if v, ok := slots[n]; ok {
+			b.WriteString(v)
+		} else {
+			b.WriteString("\n")
+		}
+		return b.String()
+	}
+	slots := map[int]string{}
+	var rec func(from, left int)
+	rec = func(from, left int) {
+		f(build(slots))
+		if left == 0 {
+			return
+		}
+		for i := from; i <= n; i++ {
+			if window > 0 && len(slots) > 0 && i-from >= window && i != n {
+				continue
+			}
+			for _, v := range trivia {
+				slots[i] = v
+				rec(i+1, left-1)
+			}
+			delete(slots, i)
+		}
+	}
+	rec(0, maxDev)
+}
